@@ -55,6 +55,10 @@ Definition range_list (r : Z * Z) : list Z :=
   map (fun k => fst r + Z.of_nat k) (seq 0 (Z.to_nat (snd r - fst r))).
 Global Instance iter_range : Iterable (Z * Z) Z := range_list.
 
+(** [&v[i..]]: panics when i is past the end *)
+Definition vec_from {A} (v : list A) (i : Z) : rs (list A) :=
+  if (0 <=? i) && (i <=? Z.of_nat (length v)) then Ret (skipn (Z.to_nat i) v) else Panic.
+
 (** [xs.iter().enumerate()] *)
 Definition enumerate_z {A} (l : list A) : list (Z * A) := combine (map Z.of_nat (seq 0 (length l))) l.
 
